@@ -554,4 +554,187 @@ example : objectiveMtl (α := ℝ) [[1, 0], [0, 1]] (colsOf 2 [[3, 4], [0, 0]]) 
   gap_bounds_suboptimality_mtl_residual 2 _ _ _ _ _ _ _ (by simp) (by simp) (by simp) (by simp) (by simp) (by simp)
     (by norm_num) (by norm_num) (by norm_num) (by norm_num)
 
+/-! ### the multi-task solver loop as modelled: a `break` certifies the returned point
+
+Same `_partial` reason as for the single-task loop: proved for `eps = 0`; with the code's `eps = F::EPSILON`
+the two `abs_diff_ne!(‖w_j‖₂, 0)` guards skip the rank-one residual update for rows of norm `≤ eps`. -/
+
+/-- **`block_coordinate_descent` left by its `break` returns a certified point**: the loop as modelled keeps
+`R = Y − XW` (`BcdInv`: through `bcdCoord`, `bcdSweepGo`, `bcdLoop`); so if it stops before the budget is used
+up, the reported gap is `< tol·‖Y‖²_F`, non-negative, and bounds `P(W) − P(W')` for every `W'` of the same shape. -/
+theorem bcd_break_certificate_partial (contig : Bool) (t : Nat) (C : List (List ℝ)) (Y : List (List ℝ)) (n tol : ℝ)
+    (maxSteps : Nat) (l1r pen : ℝ) (W : List (List ℝ)) (g : ℝ) (s : Nat)
+    (hC : ∀ c ∈ C, c.length = Y.length) (hY : ∀ y ∈ Y, y.length = t)
+    (h0 : 0 ≤ l1r) (h1 : l1r ≤ 1) (hpen : 0 ≤ pen) (hn : 0 ≤ n)
+    (h : blockCoordinateDescent contig t 0 C Y n tol maxSteps l1r pen = (W, g, s)) (hs : s < maxSteps) :
+    W.length = C.length ∧ (∀ wj ∈ W, wj.length = t) ∧ g < tol * sumS (Y.flatten.map fun x => x * x) ∧ 0 ≤ g ∧
+      ∀ W', W'.length = C.length → (∀ wj ∈ W', wj.length = t) →
+        objectiveMtl C (colsOf t Y) (colsOf t W) W (List.replicate t 0) l1r pen n
+          - objectiveMtl C (colsOf t Y) (colsOf t W') W' (List.replicate t 0) l1r pen n ≤ g := by
+  unfold blockCoordinateDescent at h
+  have key := bcdLoop_certificate contig t (n * l1r * pen) (n * (1 - l1r) * pen) C (C.map fun c => dotC contig c c) Y
+    n tol (tol * sumS (Y.flatten.map fun x => x * x)) l1r pen maxSteps hC maxSteps 0 _ Y (1 + tol) W g s
+    (bcdInv_start t C Y hC hY) h
+  obtain ⟨R, hinv, hg, hlt⟩ := key.2 (by omega)
+  have hres := bcdInv_hres t C Y _ hinv
+  obtain ⟨hrn, hrt, hwp, hwt, _⟩ := hinv
+  refine ⟨hwp, hwt, hlt, ?_, ?_⟩
+  · rw [hg]; exact gap_nonneg_mtl t C Y W R l1r pen n hC hY hrn hrt hwp hwt hres h0 h1 hpen hn
+  · intro W' hwp' hwt'
+    rw [hg]
+    exact gap_bounds_suboptimality_mtl t C Y W W' R l1r pen n hC hY hrn hrt hwp hwt hwp' hwt' hres h0 h1 hpen hn
+
+/-- a concrete run over ℝ (one feature, one task, penalty so large that `W = 0` is optimal): the loop breaks
+after one sweep of a budget of two -/
+theorem bcd_example_run :
+    blockCoordinateDescent (α := ℝ) false 1 0 [[1, 0]] [[1], [0]] 2 (1 / 2) 2 1 10 = ([[0]], 0, 1) := by
+  have hs0 : Real.sqrt 0 = 0 := Real.sqrt_zero
+  have hs1 : Real.sqrt 1 = 1 := Real.sqrt_one
+  have hn0 : norm2U ([0] : List ℝ) = 0 := by rw [norm2U_eq]; simp [dot]
+  simp [fitMtl, computeInterceptMtl, blockCoordinateDescent, bcdLoop, bcdSweepGo, bcdCoord, blockSoft, norm2U_eq,
+    dualityGapMtl, dualNormMtl, colsOf, rankOne, dotC_eq, dotS_eq, sumS_eq, sumU_eq, dot, absS_eq, maxS_eq, normMax,
+    half_eq, hs0, hs1, List.range, List.range.loop]
+  norm_num
+  rw [hn0]; norm_num
+
+example : (0 : ℝ) ≤ 0 :=
+  (bcd_break_certificate_partial false 1 [[1, 0]] [[1], [0]] 2 (1 / 2) 2 1 10 [[0]] 0 1 (by simp) (by simp)
+    (by norm_num) (by norm_num) (by norm_num) (by norm_num) bcd_example_run (by norm_num)).2.2.2.1
+
+/-- **multi-task `fit` without intercept** is `block_coordinate_descent` on the raw targets: same certificate -/
+theorem fit_mtl_no_intercept_break_certificate_partial (contig : Bool) (t : Nat) (C : List (List ℝ))
+    (Y : List (List ℝ)) (n tol : ℝ) (maxSteps : Nat) (l1r pen : ℝ) (b : List ℝ) (W : List (List ℝ)) (g : ℝ) (s : Nat)
+    (hC : ∀ c ∈ C, c.length = Y.length) (hY : ∀ y ∈ Y, y.length = t)
+    (h0 : 0 ≤ l1r) (h1 : l1r ≤ 1) (hpen : 0 ≤ pen) (hn : 0 ≤ n)
+    (h : fitMtl contig t 0 C Y n tol maxSteps l1r pen false = (b, W, g, s)) (hs : s < maxSteps) :
+    b = List.replicate t 0 ∧ 0 ≤ g ∧
+      ∀ W', W'.length = C.length → (∀ wj ∈ W', wj.length = t) →
+        objectiveMtl C (colsOf t Y) (colsOf t W) W b l1r pen n
+          - objectiveMtl C (colsOf t Y) (colsOf t W') W' (List.replicate t 0) l1r pen n ≤ g := by
+  simp only [fitMtl, computeInterceptMtl, Bool.false_eq_true, if_false] at h
+  generalize hcd : blockCoordinateDescent contig t 0 C Y n tol maxSteps l1r pen = res at h
+  obtain ⟨w0, g0, s0⟩ := res
+  simp only [Prod.mk.injEq] at h
+  obtain ⟨rfl, rfl, rfl, rfl⟩ := h
+  have := bcd_break_certificate_partial contig t C Y n tol maxSteps l1r pen w0 g0 s0 hC hY h0 h1 hpen hn hcd hs
+  exact ⟨rfl, this.2.2.2.1, this.2.2.2.2⟩
+
+example : (0 : ℝ) ≤ 0 :=
+  (fit_mtl_no_intercept_break_certificate_partial false 1 [[1, 0]] [[1], [0]] 2 (1 / 2) 2 1 10 [0] [[0]] 0 1
+    (by simp) (by simp) (by norm_num) (by norm_num) (by norm_num) (by norm_num)
+    (by simp only [fitMtl, computeInterceptMtl, Bool.false_eq_true, if_false, bcd_example_run]; rfl)
+    (by norm_num)).2.1
+
+/-- **multi-task `fit` with intercept on centred columns**: left by the `break`, the returned `(W, b)` is within
+the reported gap of every `(W', b')` — jointly in coefficients and per-task intercepts -/
+theorem fit_mtl_break_joint_centred_partial (contig : Bool) (t : Nat) (C : List (List ℝ)) (Y : List (List ℝ))
+    (tol : ℝ) (maxSteps : Nat) (l1r pen : ℝ) (b : List ℝ) (W : List (List ℝ)) (g : ℝ) (s : Nat)
+    (hC : ∀ c ∈ C, c.length = Y.length) (hY : ∀ y ∈ Y, y.length = t)
+    (h0 : 0 ≤ l1r) (h1 : l1r ≤ 1) (hpen : 0 ≤ pen) (hy : 0 < Y.length) (hcen : ∀ c ∈ C, sumS c = 0)
+    (h : fitMtl contig t 0 C Y (Y.length : ℝ) tol maxSteps l1r pen true = (b, W, g, s)) (hs : s < maxSteps) :
+    b.length = t ∧ 0 ≤ g ∧
+      ∀ W' b', W'.length = C.length → (∀ wj ∈ W', wj.length = t) → b'.length = t →
+        objectiveMtl C (colsOf t Y) (colsOf t W) W b l1r pen (Y.length : ℝ)
+          - objectiveMtl C (colsOf t Y) (colsOf t W') W' b' l1r pen (Y.length : ℝ) ≤ g := by
+  have hnn : (0 : ℝ) ≤ (Y.length : ℝ) := Nat.cast_nonneg _
+  obtain ⟨hml, hycn, hyct, hk⟩ := computeInterceptMtl_spec t Y (Y.length : ℝ) hY
+  simp only [fitMtl] at h
+  generalize hci : computeInterceptMtl true t Y (Y.length : ℝ) = ci at h hml hycn hyct hk
+  obtain ⟨m, Yc⟩ := ci
+  simp only [] at h hml hycn hyct hk
+  generalize hcd : blockCoordinateDescent contig t 0 C Yc (Y.length : ℝ) tol maxSteps l1r pen = res at h
+  obtain ⟨w0, g0, s0⟩ := res
+  simp only [Prod.mk.injEq] at h
+  obtain ⟨rfl, rfl, rfl, rfl⟩ := h
+  have hC' : ∀ c ∈ C, c.length = Yc.length := fun c hc => by rw [hycn]; exact hC c hc
+  obtain ⟨hwp, hwt, _, hg0, hopt⟩ := bcd_break_certificate_partial contig t C Yc (Y.length : ℝ) tol maxSteps l1r pen
+    w0 g0 s0 hC' hyct h0 h1 hpen hnn hcd hs
+  have hcen' : ∀ c ∈ C, c.sum = 0 := fun c hc => by rw [← sumS_eq]; exact hcen c hc
+  refine ⟨hml, hg0, fun W' b' hwp' hwt' hb' => ?_⟩
+  have key := hopt W' hwp' hwt'
+  -- (i) at the returned intercepts the objective is the centred one
+  have e1 : objectiveMtl C (colsOf t Y) (colsOf t w0) w0 m l1r pen (Y.length : ℝ)
+      = objectiveMtl C (colsOf t Yc) (colsOf t w0) w0 (List.replicate t 0) l1r pen (Y.length : ℝ) := by
+    rw [objectiveMtl_eq_b t C Y w0 m _ _ _ hwt hml, objectiveMtl_eq t C Yc w0 _ _ _ hwt]
+    congr 4
+    apply List.map_congr_left
+    intro k hkr
+    obtain ⟨hmk, hck⟩ := hk k (List.mem_range.mp hkr)
+    rw [hmk, hck]
+    exact sq_centre_eq C (colK k Y) (colK k w0) _
+  -- (ii) any other intercepts only add `n·(b'_k − m_k)²/2` per task
+  have e2 : objectiveMtl C (colsOf t Yc) (colsOf t W') W' (List.replicate t 0) l1r pen (Y.length : ℝ)
+      ≤ objectiveMtl C (colsOf t Y) (colsOf t W') W' b' l1r pen (Y.length : ℝ) := by
+    rw [objectiveMtl_eq_b t C Y W' b' _ _ _ hwt' hb', objectiveMtl_eq t C Yc W' _ _ _ hwt']
+    have hle : ((List.range t).map fun k => dot (LeastSquares.residual C (colK k Yc) (colK k W') 0)
+          (LeastSquares.residual C (colK k Yc) (colK k W') 0)).sum
+        ≤ ((List.range t).map fun k => dot (LeastSquares.residual C (colK k Y) (colK k W') (b'.getD k 0))
+          (LeastSquares.residual C (colK k Y) (colK k W') (b'.getD k 0))).sum := by
+      apply List.sum_le_sum
+      intro k hkr
+      obtain ⟨_, hck⟩ := hk k (List.mem_range.mp hkr)
+      rw [hck]
+      have := sq_centre_le C (colK k Y) (colK k W') (b'.getD k 0)
+        (by intro c hc; rw [colK_length]; exact hC c hc) (by rw [colK_length]; exact hy) hcen'
+      rw [colK_length] at this
+      exact this
+    linarith
+  rw [e1]; linarith
+
+/-- a concrete run with intercept on a centred column -/
+theorem fit_mtl_example_run :
+    fitMtl (α := ℝ) false 1 0 [[1, -1]] [[1], [0]] ((2 : ℕ) : ℝ) (1 / 2) 2 1 10 true = ([1 / 2], [[0]], 0, 1) := by
+  have hs0 : Real.sqrt 0 = 0 := Real.sqrt_zero
+  have hs1 : Real.sqrt 1 = 1 := Real.sqrt_one
+  have hn0 : norm2U ([0] : List ℝ) = 0 := by rw [norm2U_eq]; simp [dot]
+  simp [fitMtl, computeInterceptMtl, blockCoordinateDescent, bcdLoop, bcdSweepGo, bcdCoord, blockSoft, norm2U_eq,
+    dualityGapMtl, dualNormMtl, colsOf, rankOne, dotC_eq, dotS_eq, sumS_eq, sumU_eq, dot, absS_eq, maxS_eq, normMax,
+    half_eq, hs0, hs1, List.range, List.range.loop]
+  norm_num
+
+example : (0 : ℝ) ≤ 0 :=
+  (fit_mtl_break_joint_centred_partial false 1 [[1, -1]] [[1], [0]] (1 / 2) 2 1 10 [1 / 2] [[0]] 0 1 (by simp) (by simp)
+    (by norm_num) (by norm_num) (by norm_num) (by simp) (by simp [sumS]) fit_mtl_example_run (by norm_num)).2.1
+
+/-! ### the group prox is the exact minimiser of the per-feature subproblem -/
+
+/-- **`block_soft_thresholding(x, thr) / den` minimises `z ↦ ½·den·‖z‖² − ⟨x, z⟩ + thr·‖z‖₂`** over *all* vectors `z`
+(`den = ‖x_j‖² + n(1−ρ)pen > 0`, `thr = nρ·pen ≥ 0`, `x = X_jᵀR_j` the correlation of feature `j` with the
+partial residual): Cauchy–Schwarz reduces it to the scalar soft-threshold problem in `‖z‖`. -/
+theorem blockSoft_is_argmin (x z : List ℝ) (thr den : ℝ) (hthr : 0 ≤ thr) (hden : 0 < den) :
+    1 / 2 * den * dotS ((blockSoft x thr).map (· / den)) ((blockSoft x thr).map (· / den))
+        - dotS x ((blockSoft x thr).map (· / den)) + thr * norm2U ((blockSoft x thr).map (· / den))
+      ≤ 1 / 2 * den * dotS z z - dotS x z + thr * norm2U z := by
+  simp only [dotS_eq, norm2U_eq]
+  exact blockSoft_argmin x z thr den hthr hden
+
+example : 1 / 2 * (2 : ℝ) * dotS ((blockSoft [3, 4] 1).map (· / 2)) ((blockSoft [3, 4] 1).map (· / 2))
+      - dotS [3, 4] ((blockSoft [3, 4] 1).map (· / 2)) + 1 * norm2U ((blockSoft [3, 4] 1).map (· / 2))
+    ≤ 1 / 2 * 2 * dotS [1, 1] [1, 1] - dotS [3, 4] [1, 1] + 1 * norm2U [1, 1] :=
+  blockSoft_is_argmin [3, 4] [1, 1] 1 2 (by norm_num) (by norm_num)
+
+/-- the same inside the loop body of `block_coordinate_descent`: the row written by `bcdCoord` for a feature
+that is not skipped is that minimiser, for the correlation with the current partial residual -/
+theorem bcdCoord_is_block_argmin (contig : Bool) (t : Nat) (eps thr denAdd : ℝ) (st : BcdState ℝ) (j : Nat)
+    (cj : List ℝ) (nrm : ℝ) (z : List ℝ) (hj : j < st.w.length) (hn : ¬ absS nrm ≤ eps) (hthr : 0 ≤ thr)
+    (hden : 0 < nrm + denAdd) :
+    let tmp := (colsOf t (if absS (norm2U (st.w.getD j [])) ≤ eps then st.r
+      else rankOne false cj (st.w.getD j []) st.r)).map fun rc => dotC (contig && t == 1) rc cj
+    let new := (bcdCoord contig t eps thr denAdd st j cj nrm).w.getD j []
+    1 / 2 * (nrm + denAdd) * dotS new new - dotS tmp new + thr * norm2U new
+      ≤ 1 / 2 * (nrm + denAdd) * dotS z z - dotS tmp z + thr * norm2U z := by
+  intro tmp new
+  have hnew : new = (blockSoft tmp thr).map (· / (nrm + denAdd)) := by
+    simp only [new, tmp]
+    unfold bcdCoord
+    rw [if_neg hn]
+    simp [hj]
+  rw [hnew]
+  exact blockSoft_is_argmin tmp z thr (nrm + denAdd) hthr hden
+
+example : True := by
+  have := bcdCoord_is_block_argmin false 2 0 1 0 { w := [[1, 1]], r := [[0, 0], [0, 0]], wMax := 0, dwMax := 0 } 0
+    [1, 1] 2 [1, 0] (by simp) (by norm_num [absS]) (by norm_num) (by norm_num)
+  trivial
+
 end LinfaSpec.Props.C11
